@@ -297,7 +297,11 @@ def gen_boundary(r, cid, mode):
         env = mk_env("range", 0, start=s, end=e, mode=mode)
         ln = env["len"]
         if r.chance(1, 4):
-            # several skip_to_end calls around pulls that report the end, on a range of any size
+            # several skip_to_end calls around pulls that report the end, on a range of any size (half of them huge)
+            if r.chance(1, 2):
+                s, e = r.choice([(0, 1 << 63), (0, UMAX), (5, (1 << 63) + 5), (0, (1 << 63) + 1), (7, UMAX)])
+                env = mk_env("range", 0, start=s, end=e, mode=mode)
+                ln = env["len"]
             p = []
             for _ in range(r.weighted([(3, 2), (4, 3), (6, 2)])):
                 p.append(r.weighted([("skip", 4), ("next:idval", 3), ("chunk:2:9", 2), ("chunk:%d:1" % max(1, min(ln, UMAX)), 1), ("more", 2), ("len", 1)]))
